@@ -57,10 +57,20 @@ def check_guards(chk, mi, fn, qual, reqs):
         if isinstance(n, ast.Assert):
             t = U(n.test)
             # asserts on results (post-conditions) are fine; asserts on configuration parameters are rejections in disguise
-            params = set(positional_params(fn))
+            params = set(positional_params(fn)) & CONFIG_PARAMS  # the validation matrix is about these; the data operand is not a configuration
             names = {x.id for x in ast.walk(n.test) if isinstance(x, ast.Name)}
-            if names & params and not any(k in t for k in ("dtype ==",)):
+            type_guard = all(isinstance(c_, ast.Call) and U(c_.func) in ("isinstance", "torch.is_tensor", "torch.is_floating_point", "callable") for c_ in ([n.test] if not isinstance(n.test, ast.BoolOp) else n.test.values))
+            # an assert placed after every ValueError guard of the same parameters can only restate what those guards established
+            # (C14.R1 checks that the guards themselves are there); one placed before such a guard pre-empts it with an AssertionError
+            cfg = names & params
+            guards = [r for r in ast.walk(fn) if isinstance(r, ast.If) and any(isinstance(x, ast.Raise) and x.exc is not None and U(x.exc).startswith("ValueError") for x in r.body)
+                      and {x.id for x in ast.walk(r.test) if isinstance(x, ast.Name)} & cfg]
+            restates = bool(guards) and all(g.lineno < n.lineno for g in guards)
+            if cfg and not type_guard and not restates and not any(k in t for k in ("dtype ==",)):
                 chk.bad("C14.R2", f"{mi.rel}:{n.lineno}", qual, f"assert on configuration: {t}", f"{qual}: configuration check `{t}` is an assert (AssertionError, stripped under -O)", "the rejected configuration under python -O is accepted silently")
+
+
+CONFIG_PARAMS = {"qtype", "axis", "group_size", "scale", "zeropoint", "optimizer", "bits", "weights", "activations"}
 
 
 def run(chk):
